@@ -2161,3 +2161,43 @@ def _reaches_without(f, entry_stmt, via, sink):
     if lf == lk:
         return True
     return G.reaches_avoiding(f, first, via, sink)
+
+
+def using_walks_carry_a_visited_set(ctx):
+    """R15.28: using-directives may legally form a cycle (`namespace B { using namespace A; } namespace A { using namespace
+    B; }`), and every miss of a name lookup walks them: any undeclared-yet name - that is, every new declaration - is
+    looked up and missed first.  Each CPPScope lookup that follows `_using` into the same lookup of another scope must
+    therefore carry the set of scopes already visited and stop where `visited.insert(this).second` is false.
+    (F-C15aa: the five walks had no such set; the mutual form above - valid C++ - overflowed the stack.)"""
+    db = ctx.db
+    ctx.rule("R15.28", "a CPPScope method that loops over _using and calls its own name on the element passes on a set parameter, and that call is reached only where `<set>.insert(this).second` was true")
+    n = 0
+    for f in db.methods_of("CPPScope"):
+        short = f.name.split("::")[-1]
+        for lp in f.walk():
+            if lp.get("k") not in ("for", "forrange"):
+                continue
+            if not any(y.get("k") == "mem" and y.get("n") == "CPPScope::_using" for part in (lp.get("init"), lp.get("c"), lp.get("range")) if part for y in walk(part)):
+                continue
+            for c in walk(lp.get("body") or {}):
+                if not (c.get("k") == "call" and callee_short(c) == short and "this" in c):
+                    continue
+                n += 1
+                sets = [p_ for p_ in (f.params or []) if "set<" in (p_.get("t") or "") + (p_.get("ct") or "") or "Visited" in (p_.get("t") or "")]
+                passed = [p_ for p_ in sets if any((local_ref(a) or {}).get("d") == p_["d"] for a in c.get("a", []))]
+                ok, why = False, "the recursive %s() call through _using carries no visited set" % short
+                for p_ in passed:
+                    def fresh(atom, truth, d=p_["d"]):
+                        a = strip_casts(peel(atom)) if atom is not None else None
+                        if not (truth and a is not None and a.get("k") == "mem" and (a.get("n") or "").endswith("pair::second")):
+                            return False
+                        ins = strip_casts(peel(a.get("b")))
+                        return ins is not None and ins.get("k") == "call" and callee_short(ins) == "insert" and (local_ref(ins.get("this")) or {}).get("d") == d and \
+                            any(z.get("k") == "this" for z in walk(ins.get("a", [{}])[0]))
+                    e = G.edges_where(f, fresh)
+                    if e and G.gated(f, c, e):
+                        ok, why = True, "%s() follows _using only after `%s.insert(this).second` was true, and hands `%s` on" % (short, p_.get("n"), p_.get("n"))
+                    else:
+                        why = "`%s` is handed on but the call is not behind `%s.insert(this).second`" % (p_.get("n"), p_.get("n"))
+                ctx.ob("R15.28", "%s|_using->%s|visited-set" % (f.name + "/" + str(len(f.params or [])), short), ok, f.loc(c), why)
+    ctx.floor("R15.28", "lookups that follow _using recursively", n, 5)
